@@ -161,6 +161,9 @@ class Orchestrator:
                     f"Skipping strategy: {strategy.name} on CV-fold: "
                     f"{cv_fold} of dataset: {dataset.name}"
                 )
+                # the stored records still belong to the results, also when the
+                # run that produced them did not get to write the results file
+                self.results._append_key(strategy.name, dataset.name)
                 continue
 
             # split data into training and test sets
